@@ -295,7 +295,7 @@ func randomEndgame(rng *rand.Rand) Root {
 }
 
 // RootClass names of genRoot.
-var rootClasses = []string{"bench", "bench-play", "start-play", "curated", "curated-play", "shuffle2", "shuffle3", "shuffle-ep", "fifty", "fifty-long", "endgame", "captures", "promo-race", "triangle", "tiny-tree"}
+var rootClasses = []string{"bench", "bench-play", "start-play", "curated", "curated-play", "shuffle2", "shuffle3", "shuffle-ep", "fifty", "fifty-long", "endgame", "captures", "promo-race", "triangle", "tiny-tree", "ep-push"}
 
 // genRoot draws a root of the given class ("" = weighted random class). Every
 // root is validated by the reference model; an invalid one is a harness bug.
@@ -313,7 +313,7 @@ func genRoot(rng *rand.Rand, class string) Root {
 
 func genRootUnchecked(rng *rand.Rand, class string) Root {
 	if class == "" {
-		weights := []int{12, 12, 12, 10, 8, 6, 6, 3, 5, 1, 12, 5, 4, 5, 3}
+		weights := []int{12, 12, 12, 10, 8, 6, 6, 3, 5, 1, 12, 5, 4, 5, 3, 5}
 		t := 0
 		for _, w := range weights {
 			t += w
@@ -420,6 +420,64 @@ func genRootUnchecked(rng *rand.Rand, class string) Root {
 			shuffle(rng, g, 8)
 		}
 		return mk(fen, g, class)
+	case "ep-push":
+		// a double push played in the game next to an enemy pawn, in sparse
+		// positions with sliders about (so that the capture is often illegal
+		// because of a pin or a discovered check), followed by a shuffle: is the
+		// position after the push the same position as its later recurrences?
+		for try := 0; try < 1500; try++ {
+			var p ref.Pos
+			p.EP, p.Full, p.White = -1, 1+rng.IntN(60), rng.IntN(2) == 0
+			sqs := rng.Perm(64)
+			p.Sq[sqs[0]], p.Sq[sqs[1]] = ref.King, -ref.King
+			sg := int8(1)
+			if !p.White {
+				sg = -1
+			}
+			f := rng.IntN(8)
+			from, to := 8+f, 24+f // the pusher's pawn: second rank -> fourth rank
+			if !p.White {
+				from, to = 48+f, 32+f
+			}
+			nf := f - 1
+			if f == 0 || (f < 7 && rng.IntN(2) == 0) {
+				nf = f + 1
+			}
+			nb := (to/8)*8 + nf // the enemy pawn that could capture en passant
+			if p.Sq[from] != 0 || p.Sq[to] != 0 || p.Sq[(from+to)/2] != 0 || p.Sq[nb] != 0 {
+				continue
+			}
+			p.Sq[from], p.Sq[nb] = sg*ref.Pawn, -sg*ref.Pawn
+			for i, n := 0, 1+rng.IntN(3); i < n; i++ {
+				if p.Sq[sqs[2+i]] == 0 {
+					p.Sq[sqs[2+i]] = sg * pick(rng, []int8{ref.Bishop, ref.Rook, ref.Queen, ref.Queen})
+				}
+			}
+			if rng.IntN(2) == 0 && p.Sq[sqs[6]] == 0 {
+				p.Sq[sqs[6]] = -sg * pick(rng, []int8{ref.Knight, ref.Bishop, ref.Rook})
+			}
+			if p.Valid() != nil {
+				continue
+			}
+			push := ref.Move{From: from, To: to}
+			if !p.IsLegal(push) {
+				continue
+			}
+			g := ref.NewGame(p)
+			g.Push(push)
+			if g.Cur().EP < 0 || len(g.Cur().Legal()) == 0 {
+				continue
+			}
+			if g.Cur().EPCapturable() && rng.IntN(6) != 0 {
+				continue // mostly the cases in which the capture is not legal
+			}
+			n := pick(rng, []int{4, 8, 8, 8, 7, 9, 12})
+			if shuffle(rng, g, n) == 0 {
+				continue
+			}
+			return mk(p.FEN(), g, class)
+		}
+		return Root{FEN: ref.StartFEN, Tag: "start"}
 	case "tiny-tree":
 		// roots whose whole search tree is tiny: a search reaches the ply cap in
 		// a few tens of thousands of nodes and then ends by itself
